@@ -52,6 +52,13 @@ POSITIONS = [
     ("show_sig", "#show t/1.", False, False, None, True),
     ("show_term", "#show f(X) : t(X).", False, False, None, True),
     ("show_term_neg", "#show f(X) : x(X), not t(X).", False, False, None, "tx"),
+    ("show_term_condlit", "#show f : t(X) : x(X).", False, False, None, "tx"),
+    ("show_term_condlit_cond", "#show f : x(X) : t(X).", False, False, None, "tx"),
+    ("show_term_condlit_neg", "#show f : not t(X) : x(X).", False, False, None, "tx"),
+    ("show_term_agg", "#show f : #count { X : t(X) } > 0.", False, False, None, True),
+    ("show_term_oldagg", "#show f(X) : x(X), 1 { t(X) }.", False, False, None, "tx"),
+    ("show_term_dneg", "#show f(X) : x(X), not not t(X).", False, False, None, "tx"),
+    ("show_term_is_t", "#show t(X) : x(X).", False, False, None, "x"),
     ("show_nothing", "#show.", False, False, None, False),
     ("external", "#external t(X) : x(X).", False, False, None, False),
     ("project_sig", "#project t/1.", False, False, None, False),
@@ -64,8 +71,8 @@ def expected(pos: tuple) -> dict:
     occurs = any(p[2] for p in pos)
     pos_head = any(p[3] for p in pos)
     plain_def = any(p[3] and p[4] is False for p in pos)
-    shown = any(p[5] for p in pos)
-    shown_x = any(p[5] == "tx" for p in pos)
+    shown = any(p[5] in (True, "tx") for p in pos)
+    shown_x = any(p[5] in ("tx", "x") for p in pos)
     return {"must_in": occurs and not pos_head, "must_not_in": plain_def, "shown": shown, "shown_x": shown_x}
 
 
